@@ -14,6 +14,18 @@ CHECKS = {
          "Every range/gcd/parity/compositeness guard and every verification equation the property names is shown to dominate each accepting return of its verifier with a reject set at least as large as required, on all paths of the current source; Paillier domain guards dominate every non-error return; security constants are read from the type checker. A missing, weakened, misplaced or wrong-operand guard is reported with its verifier and guard name.",
          "§4.11",
          "Not decided: soundness itself (that the inventory suffices to reject every false statement) and collision resistance of the hash. The inventory is the protocol specification's (GG18 / CGGMP figures)."),
+ "C07": ("who-may-write / control-dependence / must-pass-through rules over the extracted protocol model and the round engine's CFG",
+         "Five necessary conditions of order-independence decided on every path: StoreMessage stores every content type under conditions that depend only on the message and its validation; message slots are written only by StoreMessage[sender] and Start[self] and never cleared; after advance() BaseUpdate starts the new round and re-runs itself with the same message after unlocking (or returns the Start error); every slot a round's Start reads was awaited by an earlier round or self-stored; one result emission, in the final round, with the started/NextRound lifecycle intact.",
+         "§4.7",
+         "Not decided: that all causally consistent schedules give the same result and none deadlocks (the conditions are necessary, not sufficient)."),
+ "C08": ("table agreement over the extracted protocol model (constructors, StoreMessage, CanAccept, Update, Start, WaitingFor), role-pruned CFG facts, index-class agreement, loop-exit analysis",
+         "For all 32 message types in six protocols: routing constant = flag demanded by the accepting round, one array by sender index scanned by exactly the accepting round, sent by the round that awaits it; ok[j] is set only after every message required for the party's committee role is present and accepted on its channel kind; secret-bearing payloads are point-to-point to the loop peer with that peer's payload; no constructor argument copies a long-term secret; WaitingFor lists exactly ok[j]==false in storage of its own, Update loops visit every peer, Start resets the flags; each send runs once per recipient.",
+         "§4.8",
+         "Not decided: protobuf wire round-trip equality; derived (arithmetic) leakage of secrets."),
+ "C09": ("forward lock-state dataflow + lockset walk of the call graph from the concurrent entry points + fork-join (WaitGroup/channel) pairing",
+         "For all interleavings: lock/unlock pair on every path of the engine functions and the recursion runs unlocked; from Start/Update/UpdateFromBytes/WaitingFor of all six parties, round code, the current-round pointer and the party's message store/temp data are only reached with the party mutex held; all 15 goroutines started under update entry points are joined (balanced WaitGroup, one receive per sender, counted receive or select join) before results are read or the spawner returns, write only their own slot or channel, and shared result channels drained after the join have capacity for every sender.",
+         "§4.9",
+         "Not decided: result equivalence between concurrent and sequential delivery; races inside dependencies."),
  "C12": ("Fiat-Shamir completeness by data-dependence over go/ssa (commitment classification, hash-input reachability through helpers), tag provenance, session-context index classes",
          "For each of the nine proof systems: every first-move commitment of the prover (a returned proof field not data-dependent on the challenge) flows into the challenge hash; the verifier's hash receives every commitment and every statement parameter (reasoned exemptions frozen per symbol); session parameters are exactly the tag of the tagged hash; every prover/verifier call in round code receives ssid||index with a role-consistent index class; no hash-input buffer is built with a truncating copy; the tagged hash writes H(tag) twice before the framed data.",
          "§4.12",
